@@ -27,7 +27,9 @@ def main():
     seed = os.path.abspath(sys.argv[1])
     prop = sys.argv[2]
     checks = sys.argv[3:] or [prop]
-    first = open(os.path.join(seed, "demo_path.txt")).read().splitlines()[0]
+    lines = open(os.path.join(seed, "demo_path.txt")).read().splitlines()
+    first = lines[0]
+    race = ["-race"] if any(l.strip().lower().startswith("race: yes") for l in lines[:3]) else []
     m = re.search(r"([\w./-]+_test\.go)", first)
     demo_rel = m.group(1)
     pkg = "./" + os.path.dirname(demo_rel) if os.path.dirname(demo_rel) else "."
@@ -39,7 +41,7 @@ def main():
     run(["git", "-C", "/repo", "worktree", "add", "-q", "--detach", wt, "HEAD"], "/repo")
     try:
         shutil.copy(os.path.join(seed, "demo_test.go"), os.path.join(wt, demo_rel))
-        rc, o, _ = run(["go", "test", "-vet=off", "-count=1", "-run", run_re, pkg], wt)
+        rc, o, _ = run(["go", "test"] + race + ["-vet=off", "-count=1", "-run", run_re, pkg], wt)
         out["demo_without_patch"] = "pass" if rc == 0 else "FAIL"
         rc, o, _ = run(["git", "apply", os.path.join(seed, "patch.diff")], wt)
         out["patch_applies"] = rc == 0
@@ -51,7 +53,7 @@ def main():
         if rc != 0:
             out["suite_output"] = o[-600:]
         shutil.copy(os.path.join(seed, "demo_test.go"), os.path.join(wt, demo_rel))
-        rc, o, _ = run(["go", "test", "-vet=off", "-count=1", "-run", run_re, pkg], wt)
+        rc, o, _ = run(["go", "test"] + race + ["-vet=off", "-count=1", "-run", run_re, pkg], wt)
         out["demo_with_patch"] = "fail (as required)" if rc != 0 else "PASSES (seed not effective)"
     finally:
         run(["git", "-C", "/repo", "worktree", "remove", "--force", wt], "/repo")
